@@ -351,4 +351,40 @@ Section RBS.
       + rewrite <- H1. ring.
       + rewrite spread_scale. exact (IH xs (rmul s N) r H2).
   Qed.
+  (* ---- tree loader (recursive form): a node with (c, s) sends c r to its left and s r to its right subtree.
+     Data relation: c N = N_left, s N = N_right, a leaf's "norm" is the (signed) datum itself.  Then
+     amplitude * N_root = datum * r for every leaf -- no division, so all-zero blocks are covered as
+     soon as some (c, s) satisfies the two equations there (the repaired code takes theta = 0: c = 1,
+     s = 0, and 1 * 0 = 0, 0 * 0 = 0). *)
+  Inductive ltree := Leaf (x : R) | Node (c s : R) (l r : ltree).
+
+  Fixpoint tree_data (t : ltree) : list R :=
+    match t with Leaf x => [x] | Node _ _ l r => tree_data l ++ tree_data r end.
+  Fixpoint spread_tree (t : ltree) (a : R) : list R :=
+    match t with Leaf _ => [a] | Node c s l r => spread_tree l (rmul c a) ++ spread_tree r (rmul s a) end.
+  Fixpoint loads_tree (t : ltree) (N : R) : Prop :=
+    match t with
+    | Leaf x => N = x
+    | Node c s l r => loads_tree l (rmul c N) /\ loads_tree r (rmul s N)
+    end.
+
+  Lemma spread_tree_scale k N : forall t a,
+    map (fun u => rmul u N) (spread_tree t (rmul k a)) = map (fun u => rmul u (rmul k N)) (spread_tree t a).
+  Proof.
+    induction t as [x|c s l IHl r IHr]; intros a; simpl.
+    - f_equal. ring.
+    - rewrite !map_app. f_equal.
+      + replace (rmul c (rmul k a)) with (rmul k (rmul c a)) by ring. apply IHl.
+      + replace (rmul s (rmul k a)) with (rmul k (rmul s a)) by ring. apply IHr.
+  Qed.
+
+  Lemma spread_tree_loads : forall t N a,
+    loads_tree t N -> map (fun u => rmul u N) (spread_tree t a) = map (fun x => rmul x a) (tree_data t).
+  Proof.
+    induction t as [x|c s l IHl r IHr]; intros N a H; simpl in *.
+    - subst. f_equal. ring.
+    - destruct H as [Hl Hr]. rewrite !map_app. f_equal.
+      + rewrite spread_tree_scale. now apply IHl.
+      + rewrite spread_tree_scale. now apply IHr.
+  Qed.
 End RBS.
